@@ -569,8 +569,60 @@ def case_sliced(case, res):
                                requests=sliced_requests(case['variant'], tip0)))
 
 
+def case_populate(case, res):
+    '''The Controller populates the header merkle cache in a task of its own: its one big read
+    is made, a reorganisation of depth d completes, then the read's result is handed over.'''
+    base = reorgrun.sim_for(SMALL).blocks
+    d = case['populate']
+    y = branch(SMALL, d, ['cb'] * (d + 1))
+    s = system.System(reorg_limit=case['limit'], activation=ACT)
+    failures = []
+    try:
+        s.x_chains = [base, y]
+        s.x_blocks = base
+        s.boot(base, populate='stalled')
+        s.daemon.add_known(base)
+        c = s.connect(name='c1')
+        c.call('server.version', ['c1', '1.4.2'])
+        s.x_clients = {'c1': c}
+        tip = len(base) - 1
+        rid = c.request('blockchain.block.header', [1, tip]) if case['ask_first'] else None
+        s.daemon.add_known(y)
+        s.daemon.set_chain(y)
+        s.x_blocks = y
+        s.settle()
+        if s.db.state.height != len(y) - 1:
+            raise common.Broken('the reorganisation did not complete while the cache was populating')
+        s.x_populate_job.deliver()
+        s.settle()
+        if not s.populate_task.done() or s.populate_task.exception():
+            failures.append(('populating-the-header-merkle-cache-failed', dict(
+                error=repr(s.populate_task.exception()) if s.populate_task.done() else 'never ended')))
+        if rid is not None and not failures:
+            r = c.reply(rid)
+            if r is None:
+                failures.append(('request-never-answered', {}))
+            elif 'result' in r and check_header_proof(r, base, 1, tip) is not None and \
+                    (tip >= len(y) or check_header_proof(r, y, 1, tip) is not None):
+                failures.append(('in-flight-proof-verifies-against-no-chain', {}))
+        if not failures:
+            # first the checkpoints from the fork point down (nothing may extend the cache before)
+            full_proof_check(s, c, y, res, failures=failures, stride=23,
+                             heights=list(range(len(y) - 1, -1, -1)) if case['down'] else None)
+        res.count('reorgs_during_the_populating_read')
+        dead = s.check_tasks()
+        if dead:
+            failures.append(('server-task-ended', dict(tasks=dead)))
+    finally:
+        s.close()
+    for key, detail in failures[:1]:
+        res.violation(f'{key}:populate-across-reorg', case, detail)
+
+
 def run_case(case, res):
-    if 'history' in case:
+    if 'populate' in case:
+        case_populate(case, res)
+    elif 'history' in case:
         case_history(case, res)
     elif 'sliced' in case:
         case_sliced(case, res)
@@ -585,6 +637,12 @@ BOUND2 = {'header-proofs': ('stall:J:read_headers',),
 
 
 def cases_for(tier):
+    return _cases_for(tier) + [dict(populate=d, limit=limit, ask_first=a, down=dn)
+                               for d in (1, 2, 3) for limit in (3, 6, 50) for a in (False, True)
+                               for dn in (False, True)]
+
+
+def _cases_for(tier):
     q = tier == 'quick'
     cases = [dict(history=h, all_positions=not q) for h in HISTORIES]
     for scn in ('tx-proofs', 'header-proofs', 'warm-then-reorg', 'burst', 'tsc-in-flight'):
